@@ -147,6 +147,10 @@ class ToggleModel(L.Model):
     def on_ext(self, st, name, t, kind, v):
         if kind == "N":
             j = st.open(t)
+            if v == "sync":  # the closing observable terminates inside subscribe(): a zero-length window
+                st.x[("due", j)] = None
+                st.close(j, t, "C")
+                return
             st.x[("due", j)] = None if v is None else t + v
 
     def timers(self, st):
@@ -256,7 +260,7 @@ def make(rule, p, form):
 
             def closing_for(i):
                 d = p["opn"][i][1]
-                return env.cold("close%d" % i, [] if d is None else [(d, p["ck"], 0 if p["ck"] == "N" else None)])
+                return env.cold("close%d" % i, [] if d is None else [(None if d == "sync" else d, p["ck"], 0 if p["ck"] == "N" else None)])
 
             op = f(openings, closing_for)
         else:
@@ -462,7 +466,8 @@ def param_sets(tier):
         yield "when", {"durs": list(durs), "ck": ck}
     # toggle: openings (relative instant, duration of its closing | None = never closes)
     if q:
-        togs = [[(5, 15)], [(10, 20)], [(5, 25), (15, 10)], [(5, None)], [(10, 10), (20, 10)], [(15, 30), (15, 5)], [(5, 10), (25, None)]]
+        togs = [[(5, 15)], [(10, 20)], [(5, 25), (15, 10)], [(5, None)], [(10, 10), (20, 10)], [(15, 30), (15, 5)], [(5, 10), (25, None)],
+                [(5, "sync")], [(5, "sync"), (15, 10)], [(10, 20), (20, "sync")]]
     else:
         togs = [[]]
         for t1 in (5, 10, 25):
@@ -473,6 +478,11 @@ def param_sets(tier):
                         togs.append([(t1, d1), (t2, d2)])
         togs.append([(5, 10), (15, 10), (25, 10)])
         togs.append([(10, 30), (20, 10), (30, 10)])
+        for t1 in (5, 10, 25):
+            togs.append([(t1, "sync")])
+            for d2 in (10, None, "sync"):
+                togs.append([(t1, "sync"), (t1 + 10, d2)])
+                togs.append([(t1, 20), (t1 + 10, "sync")] if d2 == 10 else [(t1, d2), (t1, "sync")])
     for i, o in enumerate(togs):
         yield "toggle", {"opn": [list(x) for x in o], "ck": "NC"[i % 2]}
     if not q:
